@@ -113,7 +113,7 @@ def work(job):
     except Exception as ex:  # noqa
         return {"tid": tid, "sql": "", "error": type(ex).__name__ + ": " + str(ex)[:80]}
     ref = p["ref_shaped"]
-    dml = p["kind"] in ("insert", "upsert", "update", "update-from", "update-join", "delete")
+    dml = p["kind"] in ("insert", "upsert", "upsert-select", "update", "update-from", "update-join", "delete")
     perr, pcode = prepare(sql)
     rerr, rcode = prepare(ref)
     rec = {"tid": tid, "sql": sql, "prepare": perr, "refprepare": rerr, "explain_equal": bool(pcode is not None and pcode == rcode),
